@@ -31,11 +31,13 @@ func writeStreamEstablishHeader(w io.Writer, msg *StreamEstablish) (int, error) 
 
 func readAtLeast(r io.Reader, n, min int, buf []byte) (int, error) {
 	for n < min {
+		// a Read may return data together with an error (e.g. io.EOF with
+		// the last bytes of the stream): count the data first.
 		nr, err := r.Read(buf[n:])
-		if err != nil {
+		n += nr
+		if err != nil && n < min {
 			return n, err
 		}
-		n += nr
 	}
 	return n, nil
 }
